@@ -415,6 +415,7 @@ func waitLeafKinds(thorough bool) []LeafCfg {
 		{Retryable: true, Fb: "custom", PrepS: "any", ExecS: "any", PostS: "any", Build: "builder"},
 		{Retryable: true, Fb: "pass", PrepS: "absent", ExecS: "res", PostS: "res", Build: "mixed"},
 		{Retryable: true, Fb: "pass", PrepS: "res", ExecS: "any", PostS: "any", Build: "mixed2"}, // wait as option, budget on the builder
+		{Retryable: true, Fb: "pass", PrepS: d, ExecS: d, PostS: d, Impl: "override"},            // embeds an unconfigured *BaseNode, own GetWait / GetMaxRetries
 	}
 	if thorough {
 		ks = append(ks,
